@@ -5,5 +5,6 @@ CONSTANTS
   MaxTok = 5
   MaxFrag = 4
   EmitLen = 5
+  EmitFrag = 3
   EmitTok = 4
   Bounded = TRUE
